@@ -87,3 +87,14 @@ package internal
 //@     invariant forall d int, k string :: d != database && has(state, d) && !seenin(0, d) ==> (has(state[d], k) <==> old(has(state[d], k)))
 //@     invariant forall d int, k string :: has(state, d) && has(state[d], k) ==> state[d][k] == old(state[d][k])
 //@     invariant forall k string :: has(state[database], k) <==> (old(has(state[database], k)) && !(exists i int :: 0 <= i && i <= rangeindex && keysToDelete[i] == k))
+
+// ---- third-party packages (outside the proof; assumed contracts) ------------------------------------
+
+// gobwas/glob: compiling and matching only inspect their arguments; a match is the uninterpreted globmatch.
+//@ ufun globmatch(g any, s string) bool
+//@ func (Glob).Match in github.com/gobwas/glob trusted props C06,C18
+//@   ensures result == globmatch(this, arg0)
+//@   modifies nothing
+//@ func MustCompile in github.com/gobwas/glob trusted props C06,C18
+//@   ensures result != nil
+//@   modifies nothing
